@@ -43,6 +43,7 @@ type loopInfo struct {
 
 type FnRun struct {
 	pendingRet map[string]Val // results about to be returned, while deferred calls run
+	siteArgs   []Val          // arguments of the call whose callsite assertions are being checked
 	ex       *Exec
 	fn       *ssa.Function
 	key      string
@@ -1121,6 +1122,22 @@ func (fr *FnRun) bindLocalsAt(st *State, vars map[string]Val, at ssa.Instruction
 	}
 	for name, cands := range fr.locals {
 		if _, taken := vars[name]; taken {
+			// a parameter: in a call-site assertion its CURRENT value is meant (parameters are
+			// mutable; entry(p) names the value at entry) - if it was spilled to a cell, read the cell
+			spilled := false
+			if at != nil {
+				for _, c := range cands {
+					if al, isAlloc := c.(*ssa.Alloc); isAlloc && isSpillOfParam(al, name) {
+						if _, ok := st.vals[c]; ok && dominatesAt(c) {
+							spilled = true
+							if pv, ok := st.vals[c].(*PtrV); ok {
+								vars[name] = fr.ex.load(st, pv)
+							}
+						}
+					}
+				}
+			}
+			_ = spilled
 			continue
 		}
 		var defined []ssa.Value
@@ -1160,6 +1177,21 @@ func (fr *FnRun) bindLocalsAt(st *State, vars map[string]Val, at ssa.Instruction
 			vars[name] = st.vals[best]
 		}
 	}
+}
+
+// isSpillOfParam: the cell the builder creates for an address-taken parameter (`t = local T (p); *t = p`).
+func isSpillOfParam(al *ssa.Alloc, name string) bool {
+	if al.Referrers() == nil {
+		return false
+	}
+	for _, r := range *al.Referrers() {
+		if st, ok := r.(*ssa.Store); ok && st.Addr == al {
+			if p, ok := st.Val.(*ssa.Parameter); ok && p.Name() == name {
+				return true
+			}
+		}
+	}
+	return false
 }
 
 // defBefore: a's definition strictly precedes b's in dominance order.
